@@ -1,13 +1,336 @@
 /-
-  ICG.Driver.Codec — line protocol of domain `codec` (stub; to be replaced by the domain owner).
+  ICG.Driver.Codec — line protocol of domain `codec` (C19: the entry codec of run/save.py, ICG.Model.Codec).
+  Finite floats are opaque tokens (`φ := String`): the harness sends the exact rational `p/q` of the double, `-0` for
+  the negative zero; the model only moves them around (and creates them from ints, `ofIntS`).
+
+    codec tree     <arr> <arr> <arg>*   → <json>                     the tree json.dump writes for output.json
+                                                                      (`entryTree`; repeated keys as written) | err:<kind>
+    codec saveload <arr> <arr> <arg>*   → data=<arr> actions=<arr> args= <arg>*      (`saveLoad`)  | err:<kind>
+    codec load     <json>               → data=… actions=… args= …    `Output.from_json(json.loads(text))` = `fromJson ∘ reload` | err:<kind>
+    codec outputs  <json>               → <name> data=… ; <name> data=… ; …   `get_outputs(json.loads(text))` (`-` when empty) | err:<kind>
+    codec nparray  f|a <json>           → <arr>                       `np.array(t, dtype=float)` | `np.array(t)`   | err:<kind>
+    codec tolist   <arr>                → <json>                      `ndarray.tolist()`
+    codec reload   <json>               → <json>                      `json.loads(json.dumps(t))`
+    codec dumps    <pyval>              → <json>                      the tree `json.dumps(v, default=json_serializer)` writes | err:type
+    codec stringify <pyval>             → <pyval>                     `json.loads(json.dumps(v, default=json_serializer))` | err:type
+
+  <arr>    = <dtype>:<shape>:<cells>    dtype f|i|b|o ; shape `2x3` | `-` (0-d) ; cells `c1,c2,…` | `-`
+  <cell>   = n | t | f | i<int> | F<float>          <float> = nan | inf | -inf | -0 | p | p/q
+  <json>   = words: n | t | f | i<int> | F<float> | s<hex> | [ <json>* ] | { (k<hex> <json>)* }
+  <pyval>  = words: N | t | f | i<int> | F<float> | s<hex> | [ <pyval>* ] | ( <pyval>* ) | { (<key> <pyval>)* } | P<hex> | O<hex>
+  <key>    = ks<hex> | ki<int> | kt | kf | kN | kF<hex of the key text> | kO
+  <arg>    = A<hex of the attribute name> <pyval>
+  strings are UTF-8 in hex.  err kinds: err:value err:type err:key err:overflow err:not-array unmodelled
 -/
+import ICG.Model.Codec
 import ICG.Driver.Proto
 namespace ICG.Driver.Codec
-open ICG ICG.Proto
+open ICG ICG.Proto ICG.Codec
 
 abbrev State := Unit
 def init : State := ()
 
-def handle (s : State) (_ : List String) : State × String := (s, "bad-op")
+abbrev J := Json String
+abbrev P := PyVal String
+
+/-! ### hex -/
+
+def hexDigit (n : Nat) : Char := if n < 10 then Char.ofNat (48 + n) else Char.ofNat (87 + n)
+
+def hexVal? (c : Char) : Option Nat :=
+  if '0' ≤ c ∧ c ≤ '9' then some (c.toNat - 48)
+  else if 'a' ≤ c ∧ c ≤ 'f' then some (c.toNat - 87)
+  else none
+
+def toHex (s : String) : String :=
+  String.ofList (s.toUTF8.toList.flatMap (fun b => [hexDigit (b.toNat / 16), hexDigit (b.toNat % 16)]))
+
+def unhexBytes : List Char → Option (List UInt8)
+  | [] => some []
+  | [_] => none
+  | a :: b :: r => do
+    let x ← hexVal? a
+    let y ← hexVal? b
+    let rest ← unhexBytes r
+    some (UInt8.ofNat (x * 16 + y) :: rest)
+
+def unhex? (cs : List Char) : Option String := do
+  let bs ← unhexBytes cs
+  String.fromUTF8? (ByteArray.mk bs.toArray)
+
+/-! ### scalars and arrays -/
+
+def ofIntS (i : Int) : Except CErr (FCell String) :=
+  match roundInt i with
+  | some r => .ok (.fin (toString r))
+  | none => .error .overflow
+
+def parseFloat? (s : String) : Option (FCell String) :=
+  if s = "nan" then some .nan else if s = "inf" then some .pinf else if s = "-inf" then some .ninf
+  else if s = "" then none else some (.fin s)
+
+def showFloat : FCell String → String
+  | .nan => "nan" | .pinf => "inf" | .ninf => "-inf" | .fin s => s
+
+def parseScalar? (w : String) : Option (Scalar String) :=
+  match w.toList with
+  | ['n'] => some .null
+  | ['t'] => some (.bool true)
+  | ['f'] => some (.bool false)
+  | 'i' :: cs => (String.ofList cs).toInt?.map .int
+  | 'F' :: cs => (parseFloat? (String.ofList cs)).map .float
+  | _ => none
+
+def showScalar : Scalar String → String
+  | .null => "n" | .bool true => "t" | .bool false => "f" | .int i => s!"i{i}" | .float c => "F" ++ showFloat c
+
+def parseDType? (s : String) : Option DType :=
+  if s = "f" then some .f64 else if s = "i" then some .i64 else if s = "b" then some .bool
+  else if s = "o" then some .obj else none
+
+def showDType : DType → String
+  | .f64 => "f" | .i64 => "i" | .bool => "b" | .obj => "o"
+
+def parseArr? (s : String) : Option (Nd String) :=
+  match s.splitOn ":" with
+  | [dt, sh, cells] => do
+    let dt ← parseDType? dt
+    let shape ← if sh = "-" then some [] else (sh.splitOn "x").mapM String.toNat?
+    let cs ← if cells = "-" then some [] else (cells.splitOn ",").mapM parseScalar?
+    some ⟨dt, shape, cs⟩
+  | _ => none
+
+def showArr (a : Nd String) : String :=
+  showDType a.dtype ++ ":" ++ (if a.shape.isEmpty then "-" else "x".intercalate (a.shape.map toString)) ++ ":" ++
+    (if a.cells.isEmpty then "-" else ",".intercalate (a.cells.map showScalar))
+
+/-! ### JSON and Python values as word lists -/
+
+mutual
+def parseJson : Nat → List String → Option (J × List String)
+  | 0, _ => none
+  | _, [] => none
+  | fuel + 1, w :: ws =>
+    if w = "[" then
+      match parseJsonSeq fuel ws with
+      | some (l, rest) => some (.arr l, rest)
+      | none => none
+    else if w = "{" then
+      match parseJsonObj fuel ws with
+      | some (l, rest) => some (.obj l, rest)
+      | none => none
+    else
+      match w.toList with
+      | 's' :: cs => (unhex? cs).map (fun s => (.str s, ws))
+      | _ => (parseScalar? w).map (fun x => (x.toJson, ws))
+def parseJsonSeq : Nat → List String → Option (List J × List String)
+  | 0, _ => none
+  | _, [] => none
+  | fuel + 1, w :: ws =>
+    if w = "]" then some ([], ws)
+    else
+      match parseJson fuel (w :: ws) with
+      | some (x, rest) =>
+        match parseJsonSeq fuel rest with
+        | some (xs, rest') => some (x :: xs, rest')
+        | none => none
+      | none => none
+def parseJsonObj : Nat → List String → Option (List (String × J) × List String)
+  | 0, _ => none
+  | _, [] => none
+  | fuel + 1, w :: ws =>
+    if w = "}" then some ([], ws)
+    else
+      match w.toList with
+      | 'k' :: cs =>
+        match unhex? cs, parseJson fuel ws with
+        | some k, some (v, rest) =>
+          match parseJsonObj fuel rest with
+          | some (kvs, rest') => some ((k, v) :: kvs, rest')
+          | none => none
+        | _, _ => none
+      | _ => none
+end
+
+mutual
+def jsonWords : J → List String
+  | .null => ["n"] | .bool true => ["t"] | .bool false => ["f"] | .int i => [s!"i{i}"]
+  | .float c => ["F" ++ showFloat c] | .str s => ["s" ++ toHex s]
+  | .arr l => "[" :: (jsonSeqWords l ++ ["]"])
+  | .obj kvs => "{" :: (jsonObjWords kvs ++ ["}"])
+def jsonSeqWords : List J → List String
+  | [] => []
+  | x :: xs => jsonWords x ++ jsonSeqWords xs
+def jsonObjWords : List (String × J) → List String
+  | [] => []
+  | (k, v) :: kvs => ("k" ++ toHex k) :: (jsonWords v ++ jsonObjWords kvs)
+end
+
+def showJson (j : J) : String := " ".intercalate (jsonWords j)
+
+def parseKey? (w : String) : Option PyKey :=
+  match w.toList with
+  | 'k' :: 's' :: cs => (unhex? cs).map .str
+  | 'k' :: 'i' :: cs => (String.ofList cs).toInt?.map .int
+  | ['k', 't'] => some (.bool true)
+  | ['k', 'f'] => some (.bool false)
+  | ['k', 'N'] => some .none
+  | 'k' :: 'F' :: cs => (unhex? cs).map .float
+  | ['k', 'O'] => some .other
+  | _ => none
+
+mutual
+def parsePy : Nat → List String → Option (P × List String)
+  | 0, _ => none
+  | _, [] => none
+  | fuel + 1, w :: ws =>
+    if w = "[" then
+      match parsePySeq "]" fuel ws with
+      | some (l, rest) => some (.list l, rest)
+      | none => none
+    else if w = "(" then
+      match parsePySeq ")" fuel ws with
+      | some (l, rest) => some (.tuple l, rest)
+      | none => none
+    else if w = "{" then
+      match parsePyDict fuel ws with
+      | some (l, rest) => some (.dict l, rest)
+      | none => none
+    else
+      match w.toList with
+      | ['N'] => some (.none, ws)
+      | ['t'] => some (.bool true, ws)
+      | ['f'] => some (.bool false, ws)
+      | 'i' :: cs => (String.ofList cs).toInt?.map (fun i => (.int i, ws))
+      | 'F' :: cs => (parseFloat? (String.ofList cs)).map (fun c => (.float c, ws))
+      | 's' :: cs => (unhex? cs).map (fun s => (.str s, ws))
+      | 'P' :: cs => (unhex? cs).map (fun s => (.path s, ws))
+      | 'O' :: cs => (unhex? cs).map (fun s => (.other s, ws))
+      | _ => none
+def parsePySeq (close : String) : Nat → List String → Option (List P × List String)
+  | 0, _ => none
+  | _, [] => none
+  | fuel + 1, w :: ws =>
+    if w = close then some ([], ws)
+    else
+      match parsePy fuel (w :: ws) with
+      | some (x, rest) =>
+        match parsePySeq close fuel rest with
+        | some (xs, rest') => some (x :: xs, rest')
+        | none => none
+      | none => none
+def parsePyDict : Nat → List String → Option (List (PyKey × P) × List String)
+  | 0, _ => none
+  | _, [] => none
+  | fuel + 1, w :: ws =>
+    if w = "}" then some ([], ws)
+    else
+      match parseKey? w, parsePy fuel ws with
+      | some k, some (v, rest) =>
+        match parsePyDict fuel rest with
+        | some (kvs, rest') => some ((k, v) :: kvs, rest')
+        | none => none
+      | _, _ => none
+end
+
+def showKey : PyKey → String
+  | .str s => "ks" ++ toHex s | .int i => s!"ki{i}" | .bool true => "kt" | .bool false => "kf"
+  | .none => "kN" | .float t => "kF" ++ toHex t | .other => "kO"
+
+mutual
+def pyWords : P → List String
+  | .none => ["N"] | .bool true => ["t"] | .bool false => ["f"] | .int i => [s!"i{i}"]
+  | .float c => ["F" ++ showFloat c] | .str s => ["s" ++ toHex s]
+  | .list l => "[" :: (pySeqWords l ++ ["]"])
+  | .tuple l => "(" :: (pySeqWords l ++ [")"])
+  | .dict kvs => "{" :: (pyDictWords kvs ++ ["}"])
+  | .path s => ["P" ++ toHex s]
+  | .other r => ["O" ++ toHex r]
+def pySeqWords : List P → List String
+  | [] => []
+  | x :: xs => pyWords x ++ pySeqWords xs
+def pyDictWords : List (PyKey × P) → List String
+  | [] => []
+  | (k, v) :: kvs => showKey k :: (pyWords v ++ pyDictWords kvs)
+end
+
+def parseArgs : Nat → List String → Option (List (String × P))
+  | _, [] => some []
+  | 0, _ => none
+  | fuel + 1, w :: ws =>
+    match w.toList with
+    | 'A' :: cs =>
+      match unhex? cs, parsePy (ws.length + 1) ws with
+      | some k, some (v, rest) => (parseArgs fuel rest).map ((k, v) :: ·)
+      | _, _ => none
+    | _ => none
+
+def argsWords : List (String × P) → List String
+  | [] => []
+  | (k, v) :: r => ("A" ++ toHex k) :: (pyWords v ++ argsWords r)
+
+def showOutput (o : Output String) : String :=
+  " ".intercalate (["data=" ++ showArr o.data, "actions=" ++ showArr o.actions, "args="] ++ argsWords o.args)
+
+def parseWholeJson (ws : List String) : Option J :=
+  match parseJson (ws.length + 1) ws with
+  | some (j, []) => some j
+  | _ => none
+
+def parseWholePy (ws : List String) : Option P :=
+  match parsePy (ws.length + 1) ws with
+  | some (v, []) => some v
+  | _ => none
+
+def showE {α} (f : α → String) : Except CErr α → String
+  | .ok a => f a
+  | .error e => toString e
+
+def handle (s : State) : List String → State × String
+  | "tree" :: d :: a :: args =>
+    match parseArr? d, parseArr? a, parseArgs (args.length + 1) args with
+    | some d, some a, some args => (s, showE showJson (entryTree ⟨d, a, args⟩))
+    | _, _, _ => (s, "bad-op")
+  | "saveload" :: d :: a :: args =>
+    match parseArr? d, parseArr? a, parseArgs (args.length + 1) args with
+    | some d, some a, some args => (s, showE showOutput (saveLoad ofIntS ⟨d, a, args⟩))
+    | _, _, _ => (s, "bad-op")
+  | "load" :: ws =>
+    match parseWholeJson ws with
+    | some j => (s, showE showOutput (fromJson ofIntS j.reload))
+    | none => (s, "bad-op")
+  | "outputs" :: ws =>
+    match parseWholeJson ws with
+    | some j =>
+      match j.reload with
+      | .obj kvs =>
+        (s, showE (fun os => if os.isEmpty then "-" else
+            " ; ".intercalate (os.map (fun p => "s" ++ toHex p.1 ++ " " ++ showOutput p.2))) (getOutputs ofIntS kvs))
+      | _ => (s, "bad-op")
+    | none => (s, "bad-op")
+  | "nparray" :: mode :: ws =>
+    match parseWholeJson ws with
+    | some j =>
+      if mode = "f" then (s, showE showArr (npArrayFloat ofIntS j))
+      else if mode = "a" then (s, showE showArr (npArrayInfer ofIntS j))
+      else (s, "bad-op")
+    | none => (s, "bad-op")
+  | ["tolist", a] =>
+    match parseArr? a with
+    | some a => (s, showE showJson a.tolist)
+    | none => (s, "bad-op")
+  | "reload" :: ws =>
+    match parseWholeJson ws with
+    | some j => (s, showJson j.reload)
+    | none => (s, "bad-op")
+  | "dumps" :: ws =>
+    match parseWholePy ws with
+    | some v => (s, showE showJson v.toJson)
+    | none => (s, "bad-op")
+  | "stringify" :: ws =>
+    match parseWholePy ws with
+    | some v => (s, showE (fun w => " ".intercalate (pyWords w)) v.stringify)
+    | none => (s, "bad-op")
+  | _ => (s, "bad-op")
 
 end ICG.Driver.Codec
